@@ -50,6 +50,7 @@ add('s_mut', 'extend', ['C01', 'C03', 'C11', 'C12'], U(2, 4))
 for fn in ('fill', 'fill_spare', 'fill_with', 'fill_spare_with'):
     add('s_mut', fn, ['C01', 'C03', 'C11'], U(1, 4))
 add('s_mut', 'make_contiguous', ['C01', 'C03', 'C07', 'C11', 'C20'], U(1, 4), stubs=[ROT])
+add('s_mut', 'two_step', ['C01'], U(1, 5), qn=[], tn=[1, 2, 3])
 
 # ---------------------------------------------------------------- views (s_view)
 add('s_view', 'views', ['C07', 'C11'], U(1, 4))
@@ -66,6 +67,7 @@ add('s_iter', 'iter_default', ['C08'], U(0, 2), qn=[1], tn=[])
 # ---------------------------------------------------------------- drain (s_drain)
 add('s_drain', 'drain', ['C01', 'C03', 'C09', 'C11', 'C20'], U(1, 4))
 add('s_drain', 'drain_forget', ['C10'], U(1, 4))
+add('s_drain', 'drain_forget_plain', ['C10'], U(1, 4))
 add('s_drain', 'drain_debug', ['C09'], U(1, 4), qn=[0, 1, 3], tn=[4])
 
 # ---------------------------------------------------------------- documented panics (s_panic)
@@ -112,7 +114,10 @@ add('s_io', 'io_pair_eio', ['C16'], lambda n: 18, qn=[0, 1, 2, 3], tn=[4], feat=
 HUGE = ['{ usize::MAX }', '{ usize::MAX - 1 }', '{ (1usize << 63) + 1 }', '{ 1usize << 63 }', '{ (1usize << 63) - 1 }',
         '{ (1usize << 32) + 1 }']
 HUGE_NAMES = ['max', 'max_m1', 'p63_p1', 'p63', 'p63_m1', 'p32_p1']
-add('s_zst', 'zst_op', ['C19'], lambda n: 9, qn=HUGE, tn=[])
+# groups 5 (clone_from) and 6 (From<[Z; 2]>) move a whole `[Z; N]` by value, which CBMC 6.11 cannot encode for N >= 2^63
+# (boolbv_width invariant): they run at the capacities below 2^63 only
+ZST_PAIRS = [(h, g) for h in HUGE for g in (0, 1, 2, 3, 4)] + [(h, g) for h in HUGE[4:] for g in (5, 6)]
+add('s_zst', 'zst_op', ['C19'], lambda n, g: 9, pairs=(ZST_PAIRS, []))
 add('s_zst', 'zst_cmp', ['C19'], lambda n: 9, qn=HUGE[:3], tn=HUGE[3:])
 
 # ---------------------------------------------------------------- two buffers (s_two)
@@ -122,18 +127,18 @@ add('s_two', 'two_buffers', ['C04'], lambda n, g: max(n + 5, 9), pairs=(TWO_Q, T
 
 # ---------------------------------------------------------------- C17: no allocation (allocator entry points stubbed to panic)
 C17_CFG = ['nodefault', 'alloc', 'default']
-C17_N = [0, 1, 3]
+C17_N = [3]
 for fn in ('push_back', 'push_front', 'try_push_back', 'try_push_front', 'pop_back', 'pop_front', 'remove', 'swap',
            'swap_remove_back', 'swap_remove_front', 'truncate_back', 'truncate_front', 'clear', 'extend', 'fill', 'fill_spare',
            'fill_with', 'fill_spare_with'):
-    add('s_mut', fn, ['C17'], U(2, 4), qn=C17_N, tn=[4], stubs=NOALLOC, configs=C17_CFG)
-add('s_mut', 'extend_from_slice', ['C17'], lambda n: max(2 * n + 4, 15), qn=C17_N, tn=[4], stubs=NOALLOC, configs=C17_CFG)
-add('s_mut', 'make_contiguous', ['C17'], U(1, 4), qn=C17_N, tn=[4], stubs=NOALLOC + [ROT], configs=C17_CFG)
+    add('s_mut', fn, ['C17'], U(2, 4), qn=C17_N, tn=[0, 1, 4], stubs=NOALLOC, configs=C17_CFG)
+add('s_mut', 'extend_from_slice', ['C17'], lambda n: max(2 * n + 4, 15), qn=C17_N, tn=[0, 1, 4], stubs=NOALLOC, configs=C17_CFG)
+add('s_mut', 'make_contiguous', ['C17'], U(1, 4), qn=C17_N, tn=[0, 1, 4], stubs=NOALLOC + [ROT], configs=C17_CFG)
 for mod, fn in (('s_view', 'views'), ('s_view', 'view_mut'), ('s_view', 'view_mut_distinct'), ('s_iter', 'iter_script'),
                 ('s_iter', 'iter_mut_script'), ('s_iter', 'into_iter_script'), ('s_drain', 'drain'), ('s_drain', 'drain_forget'),
                 ('s_ctor', 'ctor_new'), ('s_ctor', 'from_iter'), ('s_ctor', 'clone_buf'), ('s_ctor', 'clone_from'),
                 ('s_cmp', 'ord_buffers'), ('s_cmp', 'hash_layout')):
-    add(mod, fn, ['C17'], U(2, 5), qn=C17_N, tn=[4], stubs=NOALLOC, configs=C17_CFG)
+    add(mod, fn, ['C17'], U(2, 5), qn=C17_N, tn=[0, 1, 4], stubs=NOALLOC, configs=C17_CFG)
 add('s_ctor', 'from_array', ['C17'], lambda n, m: max(n, m) + 4, pairs=([(0, 2), (1, 3), (3, 2), (3, 5)], [(4, 7)]), stubs=NOALLOC, configs=C17_CFG)
 add('s_cmp', 'eq_buffers', ['C17'], lambda n, m: max(n, m) + 4, pairs=([(1, 3), (3, 3)], [(4, 3)]), stubs=NOALLOC, configs=C17_CFG)
 add('s_cmp', 'eq_slices', ['C17'], lambda n, k: max(n, k) + 4, pairs=([(3, 3)], [(4, 4)]), stubs=NOALLOC, configs=C17_CFG)
@@ -148,18 +153,18 @@ add('s_ctor', 'alloc_witness_boxed', ['C17'], U(1, 4), qn=[3], tn=[], stubs=NOAL
 
 # ---------------------------------------------------------------- C18: the same families built with the `unstable` feature
 C18_CFG = ['default', 'unstable']
-C18_N = [0, 1, 3]
+C18_N = [1, 3]
 for fn in ('push_back', 'push_front', 'try_push_back', 'try_push_front', 'pop_back', 'pop_front', 'remove', 'swap',
            'swap_remove_back', 'swap_remove_front', 'truncate_back', 'truncate_front', 'clear', 'extend', 'fill', 'fill_spare',
            'fill_with', 'fill_spare_with'):
-    add('s_mut', fn, ['C18'], U(2, 4), qn=C18_N, tn=[2, 4], mask='ALL', configs=C18_CFG)
-add('s_mut', 'extend_from_slice', ['C18'], lambda n: max(2 * n + 4, 15), qn=C18_N, tn=[2, 4], mask='ALL', configs=C18_CFG)
-add('s_mut', 'make_contiguous', ['C18'], U(1, 4), qn=C18_N, tn=[2, 4], stubs=[ROT], mask='ALL', configs=C18_CFG)
+    add('s_mut', fn, ['C18'], U(2, 4), qn=C18_N, tn=[0, 2, 4], mask='ALL', configs=C18_CFG)
+add('s_mut', 'extend_from_slice', ['C18'], lambda n: max(2 * n + 4, 15), qn=C18_N, tn=[0, 2, 4], mask='ALL', configs=C18_CFG)
+add('s_mut', 'make_contiguous', ['C18'], U(1, 4), qn=C18_N, tn=[0, 2, 4], stubs=[ROT], mask='ALL', configs=C18_CFG)
 for mod, fn in (('s_view', 'views'), ('s_view', 'view_mut'), ('s_view', 'view_mut_distinct'), ('s_iter', 'iter_script'),
                 ('s_iter', 'iter_mut_script'), ('s_iter', 'into_iter_script'), ('s_drain', 'drain'), ('s_drain', 'drain_forget'),
                 ('s_drain', 'drain_debug'), ('s_ctor', 'ctor_new'), ('s_ctor', 'from_iter'), ('s_ctor', 'clone_buf'),
                 ('s_ctor', 'clone_from'), ('s_ctor', 'into_iter_all'), ('s_cmp', 'ord_buffers'), ('s_cmp', 'hash_layout')):
-    add(mod, fn, ['C18'], U(2, 5), qn=C18_N, tn=[2, 4], mask='ALL', configs=C18_CFG)
+    add(mod, fn, ['C18'], U(2, 5), qn=C18_N, tn=[0, 2, 4], mask='ALL', configs=C18_CFG)
 add('s_ctor', 'from_array', ['C18'], lambda n, m: max(n, m) + 4, pairs=([(0, 2), (1, 3), (3, 2), (3, 5)], [(2, 5), (4, 7)]), mask='ALL', configs=C18_CFG)
 add('s_cmp', 'eq_buffers', ['C18'], lambda n, m: max(n, m) + 4, pairs=([(1, 3), (3, 3)], [(4, 3)]), mask='ALL', configs=C18_CFG)
 add('s_io', 'io_std', ['C18'], lambda n, k: 18, pairs=([(1, 2), (3, 2)], [(4, 2)]), feat='feature = "std"', mask='ALL', configs=C18_CFG)
@@ -178,11 +183,15 @@ def instances(tier_filter=None):
             if sc.pairs is not None:
                 for tier, ps in (('q', sc.pairs[0]), ('t', sc.pairs[1])):
                     for (n, m) in ps:
-                        name = '%s_%s__%s__n%d_m%d' % (tier, prop.lower(), sc.fn, n, m)
+                        name = '%s_%s__%s__n%s_m%d' % (tier, prop.lower(), sc.fn, nname(n), m)
                         yield dict(name=name, tier=tier, prop=prop, scen=sc, n=n, m=m,
                                    unwind=sc.unwind(n, m), mask=sc.mask or prop)
                 continue
-            for tier, ns in (('q', sc.qn), ('t', sc.tn)):
+            qn, tn = sc.qn, sc.tn
+            if prop == 'C11' and not sc.extra.get('expect_panic') and qn == QN:
+                # totality harnesses duplicate the functional families: quick runs them at three capacities only
+                qn, tn = [0, 1, 3], [2, 4, 5, 6]
+            for tier, ns in (('q', qn), ('t', tn)):
                 for n in ns:
                     name = '%s_%s__%s__n%s' % (tier, prop.lower(), sc.fn, nname(n))
                     yield dict(name=name, tier=tier, prop=prop, scen=sc, n=n, m=None,
